@@ -16,10 +16,12 @@ def pmImage1 (cap : Nat) (parts : List (Int × Int)) (f : Int → Int) (s : Ivs)
   fromIntervals cap (parts.flatMap fun p =>
     (inter cap s [p]).map fun ab => (min (f ab.1) (f ab.2), max (f ab.1) (f ab.2)))
 
-/-- binary: boxes are the products of the intervals of `s1 ∩ p1` and `s2 ∩ p2`; corners are the 4 bound combinations -/
+/-- binary: boxes are the products of the intervals of `s1 ∩ p1` and `s2 ∩ p2`; corners are the 4 bound combinations.
+The boxes are visited with the second argument's intervals in the outer loop (`IntervalsProduct::iter` recurses into the
+tail of the product first): the order matters for the result once the capacity of the interval set is exceeded. -/
 def pmImage2 (cap : Nat) (parts : List ((Int × Int) × (Int × Int))) (f : Int → Int → Int) (s1 s2 : Ivs) : Ivs :=
   fromIntervals cap (parts.flatMap fun p =>
-    (inter cap s1 [p.1]).flatMap fun ab => (inter cap s2 [p.2]).map fun cd =>
+    (inter cap s2 [p.2]).flatMap fun cd => (inter cap s1 [p.1]).map fun ab =>
       (min4 (f ab.1 cd.1) (f ab.1 cd.2) (f ab.2 cd.1) (f ab.2 cd.2),
        max4 (f ab.1 cd.1) (f ab.1 cd.2) (f ab.2 cd.1) (f ab.2 cd.2)))
 
